@@ -2084,7 +2084,8 @@ bn_and(bn_p bn, bn_p n) {
 	if (bn->count > digits) {
 		bn->num[digits] = 0;
 	}
-	bn_update_digits__int(bn, digits);
+	/* Result have no more than MIN() digits: drop old high digits of bn. */
+	bn->digits = bn_digits_calc_digits(bn->num, digits);
 	return (0);
 }
 
